@@ -35,7 +35,7 @@ class Oblig:
 
 
 class State:
-    __slots__ = ("env", "heap", "pc", "old", "catching", "ghost_old_heap", "depth")
+    __slots__ = ("env", "heap", "pc", "old", "catching", "ghost_old_heap", "depth", "writebacks", "held")
 
     def __init__(self):
         self.env: Dict[str, Any] = {}
@@ -44,6 +44,8 @@ class State:
         self.old: Optional["State"] = None
         self.catching: List[List[str]] = []  # stack of exception-name lists caught by enclosing try
         self.depth = 0
+        self.writebacks: List[Any] = []  # (dict ref, key term, object ref): thawed container elements
+        self.held: List[str] = []  # monitor locks currently held (outermost first)
 
     def copy(self) -> "State":
         s = State()
@@ -53,6 +55,8 @@ class State:
         s.old = self.old
         s.catching = [list(c) for c in self.catching]
         s.depth = self.depth
+        s.writebacks = list(self.writebacks)
+        s.held = list(self.held)
         return s
 
     def assume(self, t):
